@@ -119,11 +119,16 @@ Fixpoint first_occ (seen : list string) (l : list string) : list string :=
   | [] => []
   | x :: r => if in_list x seen then first_occ seen r else x :: first_occ (x :: seen) r
   end.
-Definition model_markers (conds : list (string * bool)) (observed : list string) : list string :=
-  let t := build_trace c10_steps (val_fun conds) in
+Definition model_markers (cond : string -> bool) (observed : list string) : list string :=
+  let t := build_trace c10_steps cond in
   filter (fun m => in_list m always_observable || in_list m observed) (first_occ [] (markers (fst t))).
+(* [conds]: the conditions the harness knows the truth of, by their text; a condition of the source
+   it does not list (a text it has never seen) may take either value: the observed order must be the
+   model's order for SOME completion of the valuation *)
 Definition check_order (conds : list (string * bool)) (observed : list string) : list string :=
-  tag_if (negb (str_list_eqb (model_markers conds observed) observed)) "mismatch:build-step-order".
+  let unknown := filter (fun c => match assoc_b conds c with Some _ => false | None => true end) (dedup (conds_of c10_steps)) in
+  tag_if (negb (existsb (fun v => str_list_eqb (model_markers (val_fun (conds ++ v)) observed) observed) (all_vals unknown)))
+    "mismatch:build-step-order".
 
 Definition blank_content (p : path) (e : entry) : entry :=
   if path_eqb (e_path e) p then
